@@ -1,14 +1,153 @@
 import GT.DriverCore
+import GT.Model.ApproxFeature
 /-!
 # Driver extension: operations of `gaussian_toolbox/approximate_conditional.py`
 `execApprox dst op` returns `true` when it handled the instruction.
+
+Feature conditionals (`LRBFGaussianConditional`, `LSEMGaussianConditional`) live in registers as
+`Val.feat Dy Dx Dk c` (conditional batch `R = 1`, the only one the classes are typed for).
+
+Instructions (all prefixed `feat_`, the un-prefixed names belong to the linear classes):
+
+* `feat_rbf  R Dy Dx Dk M b? mu length_scale Sigma? Lambda? ln_det_Sigma?`
+* `feat_lsem R Dy Dx Dk M b? W[Dk,Dx+1] Sigma? Lambda? ln_det_Sigma?`
+* `feat_phi c x`, `feat_cond_mu c x`, `feat_condition_on_x c x`, `feat_set_y c y` (always refused)
+* `feat_moments_mu c p`, `feat_moments_sigma c p`, `feat_cross c p`
+* `feat_joint|feat_marginal|feat_conditional|feat_cond_entropy|feat_mutual_information c p`
+* `feat_log_cond c q px|-1`, `feat_log_cond_y c p y`
+* `feat_slice c idx…`, `feat_update_sigma c S`, `feat_update_phi c`
 -/
 namespace GT.Driver
 open GT
 
+def getFeat (i : Nat) : M (Σ Dy Dx Dk, FeatCondB Dy Dx Dk F) := do
+  match (← getReg i) with
+  | .feat Dy Dx Dk c => pure ⟨Dy, Dx, Dk, c⟩
+  | _ => refuse "type-error:feat"
+
+/-- points `[N, D]` from an array register -/
+def getPoints (i : Nat) (D : Nat) : M (Σ N, Arr N (Vec D F)) := do
+  let (shape, x) ← getArr i
+  match shape with
+  | [N, D'] =>
+    if D' ≠ D then refuse "shape-error"
+    pure ⟨N, v2 x⟩
+  | _ => refuse "shape-error"
+
 def execApprox (dst : Nat) (op : String) : M Bool := do
-  let _ := dst
   match op with
+  | "feat_rbf" | "feat_lsem" => do
+    let R ← lp nat; let Dy ← lp nat; let Dx ← lp nat; let Dk ← lp nat
+    if R ≠ 1 then refuse "unsupported-batch"
+    let Mm ← lp (floats (Dy * (Dx + Dk))); let b ← lp (optFloatsN Dy)
+    let kernel : FeatKernel Dk Dx F ←
+      if op == "feat_rbf" then do
+        let mu ← lp (floats (Dk * Dx)); let ls ← lp (floats (Dk * Dx))
+        pure (FeatKernel.rbf (v2 mu) (v2 ls))
+      else do
+        let W ← lp (floats (Dk * (Dx + 1)))
+        let Wf : Mat Dk (Dx + 1) F := v2 W
+        -- `self.w0 = self.W[:, 0]; self.W = self.W[:, 1:]`
+        pure (FeatKernel.lsem (tab2 fun k i => Wf k ⟨i.1 + 1, by omega⟩) (tab fun k => Wf k ⟨0, by omega⟩))
+    let S ← lp (optFloatsN (Dy * Dy)); let L ← lp (optFloatsN (Dy * Dy)); let ld ← lp (optFloatsN 1)
+    match mkFeatCond be (v3 Mm) (b.map v2) kernel (S.map v3) (L.map v3) (ld.map v1) with
+    | some c => setReg dst (.feat Dy Dx Dk c)
+    | none => refuse "refuse-documented"
+    return true
+  | "feat_phi" => do
+    let ⟨_, Dx, Dk, c⟩ ← getFeat (← reg)
+    let ⟨N, x⟩ ← getPoints (← reg) Dx
+    setReg dst (.arr [N, Dx + Dk] (d2 (c.evaluatePhi x)))
+    return true
+  | "feat_cond_mu" => do
+    let ⟨Dy, Dx, _, c⟩ ← getFeat (← reg)
+    let ⟨N, x⟩ ← getPoints (← reg) Dx
+    setReg dst (.arr [N, Dy] (d2 (c.condMu x)))
+    return true
+  | "feat_condition_on_x" => do
+    let ⟨Dy, Dx, _, c⟩ ← getFeat (← reg)
+    let ⟨N, x⟩ ← getPoints (← reg) Dx
+    setReg dst (.meas N Dy (c.conditionOnX be x))
+    return true
+  | "feat_set_y" => do
+    -- `raise NotImplementedError("This class doesn't have the function set_y.")`
+    let _ ← getFeat (← reg)
+    refuse "refuse-documented"
+  | "feat_moments_mu" | "feat_moments_sigma" | "feat_cross" | "feat_joint" | "feat_marginal"
+  | "feat_conditional" | "feat_cond_entropy" | "feat_mutual_information" => do
+    let ⟨Dy, Dx, _, c⟩ ← getFeat (← reg)
+    let ⟨Rx, Dp, p⟩ ← getPdf (← reg)
+    let arrOf {n : Nat} (o : Option (Arr n F)) : M Val := match o with
+      | some f => pure (.arr [n] (d1 f))
+      | none => refuse "other"
+    if h : Dp = Dx then
+      let p : PdfV Rx Dx F := h ▸ p
+      match op with
+      | "feat_moments_mu" => setReg dst (.arr [Rx, Dy] (d2 (c.expectedMoments be p).1))
+      | "feat_moments_sigma" => setReg dst (.arr [Rx, Dy, Dy] (d3 (c.expectedMoments be p).2))
+      | "feat_cross" => setReg dst (.arr [Rx, Dy, Dx] (d3 (c.expectedCrossTerms be p)))
+      | "feat_joint" => setReg dst (.meas _ _ (c.affineJoint be p))
+      | "feat_marginal" => setReg dst (.meas _ _ (c.affineMarginal be p))
+      | "feat_conditional" =>
+        match c.affineConditional be p with
+        | some cc => setReg dst (.cond _ _ _ cc)
+        | none => refuse "other"
+      | "feat_cond_entropy" => setReg dst (← arrOf (c.conditionalEntropy be p))
+      | _ => setReg dst (← arrOf (c.mutualInformation be p))
+    else refuse "shape-error"
+    return true
+  | "feat_log_cond" => do
+    let ⟨Dy, Dx, _, c⟩ ← getFeat (← reg)
+    let ⟨Rq, Dq, q⟩ ← getPdf (← reg)
+    let pxr ← lp int
+    if h : Dq = Dy + Dx then
+      let q : PdfV Rq (Dy + Dx) F := h ▸ q
+      if pxr < 0 then
+        setReg dst (.arr [Rq] (d1 (c.integrateLogConditional be q none)))
+      else
+        let ⟨Rp, Dp, px⟩ ← getPdf pxr.toNat
+        if h2 : Dp = Dx then
+          if h3 : Rp = Rq then
+            let px : PdfV Rq Dx F := h3 ▸ h2 ▸ px
+            setReg dst (.arr [Rq] (d1 (c.integrateLogConditional be q (some px))))
+          else refuse "shape-error"
+        else refuse "shape-error"
+    else refuse "shape-error"
+    return true
+  | "feat_log_cond_y" => do
+    let ⟨Dy, Dx, _, c⟩ ← getFeat (← reg)
+    let ⟨Rp, Dp, p⟩ ← getPdf (← reg)
+    let ⟨N, ys⟩ ← getPoints (← reg) Dy
+    if h : Dp = Dx then
+      let p : PdfV Rp Dx F := h ▸ p
+      let terms := c.logConditionalYTerms be p
+      if h2 : N = Rp then
+        setReg dst (.arr [N] (d1 (tab fun (n : Fin N) => c.logConditionalYAt terms (h2 ▸ n) (ys n))))
+      else if h3 : Rp = 1 then
+        setReg dst (.arr [N] (d1 (tab fun (n : Fin N) => c.logConditionalYAt terms (h3 ▸ (0 : Fin 1)) (ys n))))
+      else if h4 : N = 1 then
+        setReg dst (.arr [Rp] (d1 (tab fun (r : Fin Rp) => c.logConditionalYAt terms r (ys (h4 ▸ (0 : Fin 1))))))
+      else refuse "shape-error"
+    else refuse "shape-error"
+    return true
+  | "feat_slice" => do
+    let ⟨Dy, Dx, Dk, c⟩ ← getFeat (← reg)
+    let idx ← lp ints
+    let N := idx.size
+    let idxf : Fin N → Int := fun n => idx.getD n.1 0
+    setReg dst (.cond N Dy (Dx + Dk) (c.slice idxf))
+    return true
+  | "feat_update_sigma" => do
+    let src ← reg
+    let ⟨Dy, Dx, Dk, c⟩ ← getFeat src
+    let S ← lp (floats (Dy * Dy))
+    setReg src (.feat Dy Dx Dk (c.updateSigma be (v3 S))); setReg dst (.arr [0] #[])
+    return true
+  | "feat_update_phi" => do
+    let src ← reg
+    let ⟨Dy, Dx, Dk, c⟩ ← getFeat src
+    setReg src (.feat Dy Dx Dk c.updatePhi); setReg dst (.arr [0] #[])
+    return true
   | _ => pure false
 
 end GT.Driver
